@@ -1,6 +1,6 @@
 (* C12 -- Feed-forward layers compute their documented formulas; Linen and NNX agree. *)
 From Coq Require Import ZArith QArith.
-From Flaxm Require Import Lib.Harness Model.Layers Proofs.Layers Proofs.ConvT Proofs.Conv2.
+From Flaxm Require Import Lib.Harness Model.NdIndex Model.Layers Proofs.Layers Proofs.ConvT Proofs.Conv2 Proofs.NdIndex.
 Open Scope Z_scope.
 
 (* Conv: what the code does (jnp.pad with the boundary rule, then a VALID convolution) is the documented direct sum
@@ -110,9 +110,47 @@ Theorem C12_norm_output_characterised : forall eps x mean var scale bias y, norm
 Proof. exact norm_ok_exact. Qed.
 Print Assumptions C12_norm_output_characterised.
 
+(* which elements share their statistics.  The model computes the reduction groups of a whole layer from the shape and the
+   axes (Model/NdIndex.v): row-major flat indices and multi-indices are inverse bijections, every element lies in exactly
+   one group, and two elements are in one group exactly when ... *)
+Theorem C12_flat_index_bijection : forall shape,
+  (forall i, (i < prod shape)%nat -> ravel shape (unravel shape i) = i /\ in_range shape (unravel shape i) = true) /\
+  (forall idx, in_range shape idx = true -> unravel shape (ravel shape idx) = idx).
+Proof. intros shape. split; [exact (ravel_unravel shape)|exact (unravel_ravel shape)]. Qed.
+Print Assumptions C12_flat_index_bijection.
+Theorem C12_norm_groups_partition : forall (key : nat -> list nat) n i, (i < n)%nat ->
+  exists g, In g (groups_by list_nat_eqb key n) /\ In i g /\ forall g', In g' (groups_by list_nat_eqb key n) -> In i g' -> g' = g.
+Proof. intros key n i. exact (groups_by_member list_nat_eqb list_nat_eqb_spec key n i). Qed.
+Print Assumptions C12_norm_groups_partition.
+Theorem C12_norm_group_members : forall (key : nat -> list nat) n g i j, In g (groups_by list_nat_eqb key n) -> In i g ->
+  (In j g <-> (j < n)%nat /\ key j = key i).
+Proof. intros key n g i j. exact (groups_by_same_key list_nat_eqb list_nat_eqb_spec key n g i j). Qed.
+Print Assumptions C12_norm_group_members.
+(* ... LayerNorm / RMSNorm / InstanceNorm: they agree on every axis that is not a reduction axis *)
+Theorem C12_layer_norm_same_statistics : forall shape red i j,
+  reduce_key shape red i = reduce_key shape red j <->
+  forall a, (a < length shape)%nat -> ~ In a red -> nth a (unravel shape i) 0%nat = nth a (unravel shape j) 0%nat.
+Proof. exact reduce_key_same. Qed.
+Print Assumptions C12_layer_norm_same_statistics.
+(* ... GroupNorm with g groups over c = g * gs channels: same batch row, and channels in the same block of gs consecutive
+   channels (the channel of a flat index is its remainder modulo c) *)
+Theorem C12_group_norm_same_statistics : forall s c g gs i j, s <> [] -> c = (g * gs)%nat -> g <> 0%nat -> gs <> 0%nat ->
+  (i < prod (s ++ [c]))%nat -> (j < prod (s ++ [c]))%nat ->
+  (group_key (s ++ [c]) g i = group_key (s ++ [c]) g j <->
+   nth 0 (unravel (s ++ [c]) i) 0%nat = nth 0 (unravel (s ++ [c]) j) 0%nat /\ ((i mod c) / gs = (j mod c) / gs)%nat).
+Proof. exact group_key_same. Qed.
+Print Assumptions C12_group_norm_same_statistics.
+Theorem C12_channel_of_flat_index : forall s c i, (i < prod (s ++ [c]))%nat -> last (unravel (s ++ [c]) i) 0%nat = (i mod c)%nat.
+Proof. exact channel_is_mod. Qed.
+Print Assumptions C12_channel_of_flat_index.
+Example C12_groups_example :
+  groups_by list_nat_eqb (group_key [2; 2; 4]%nat 2) 16 = [[0; 1; 4; 5]; [2; 3; 6; 7]; [8; 9; 12; 13]; [10; 11; 14; 15]]%nat /\
+  groups_by list_nat_eqb (reduce_key [2; 3; 2]%nat [1]%nat) 12 = [[0; 2; 4]; [1; 3; 5]; [6; 8; 10]; [7; 9; 11]]%nat.
+Proof. vm_compute. split; reflexivity. Qed.
+
 (* NOT proved (decided per run against the independent numpy reference and, for Dense / Conv1D / Embed / pooling /
    BatchNorm statistics, against this model): DenseGeneral / Einsum axis arithmetic, 2-D ConvTranspose, ConvLocal,
-   Dropout, Linen = NNX; the reduction groups of the normalisation layers are computed by the harness from the axes. *)
+   Dropout, Linen = NNX. *)
 Example C12_example :
   let c := mkConv [[[1]; [0]]; [[0]; [2]]; [[1]; [1]]] (Some [1]) 2 1 1 2 1 in
   let x := [[1; 2]; [3; 4]; [5; 6]; [7; 8]; [9; 10]] in
